@@ -485,13 +485,19 @@ impl FileMetaStore {
     ) -> Result<(), Error> {
         if key == HARD_STATE_KEY {
             let hard_state_path = self.data_dir.join(HARD_STATE_FILE_NAME);
-            let mut file = File::create(hard_state_path)?;
+            // Write a sibling file and rename it over the old one: File::create() on the live
+            // file truncates it first, so a crash before/while writing left an empty or torn
+            // file that loads as "no hard state" (term and vote silently lost).
+            let tmp_path = self.data_dir.join(format!("{HARD_STATE_FILE_NAME}.tmp"));
+            let mut file = File::create(&tmp_path)?;
             #[cfg(feature = "verif-hooks")]
             crate::verif_exports::crash_point("meta:after_create");
             file.write_all(value)?;
             #[cfg(feature = "verif-hooks")]
             crate::verif_exports::crash_point("meta:after_write");
             file.flush()?;
+            drop(file);
+            fs::rename(&tmp_path, &hard_state_path)?;
         }
 
         Ok(())
